@@ -259,7 +259,7 @@ type C09PtrCase struct {
 var c09PtrForms = [][2]string{{"{% if x %}T{% else %}F{% endif %}", "T"}, {"{{ x ? 'T' : 'F' }}", "T"}, {"{{ not x ? 'T' : 'F' }}", "F"},
 	{"{% if false %}A{% elseif x %}B{% else %}D{% endif %}", "B"}, {"{{ (x and true) ? 'T' : 'F' }}", "T"}, {"{{ (x or false) ? 'T' : 'F' }}", "T"}}
 
-// checkC09Ptr: the falsy values are listed (false, 0, '', null, empty list, empty map); a non-nil
+// checkC09Ptr: the falsy values are listed (false, 0, ”, null, empty list, empty map); a non-nil
 // pointer is none of them, whatever it points to.
 func checkC09Ptr(c C09PtrCase) error {
 	f := c09PtrForms[c.Form%len(c09PtrForms)]
